@@ -271,6 +271,8 @@ func checkC01(c *Ctx) {
 	checkSettleAck(c, "C01.R4")
 	checkSchemaInit(c, "C01.R5")
 	checkUpsertTargets(c, "C01.R6")
+	c.Rule("C01.R7", "offered again after a restart: a message leased by an earlier process returns to the queue because the expired-lease release dominates candidate selection on every dequeue and can be refused only by the time-based granularity throttle (no process-local state suppresses it) — the analysis of C05.R1, claimed here for the restart clause")
+	checkSweepBeforeSelect(c, "C01.R7")
 }
 
 var storeLeaseMethods = map[string]bool{"Ack": true, "Nack": true, "MarkDead": true, "Extend": true}
